@@ -8,12 +8,15 @@
    byte), the configured terminator (ok, offset of the terminator), or the end of the header line after
    optional blanks (end of header, offset after the line); a parameter without value is allowed
    (empty value).  Any offset / any preceding bytes: C17_param_then_next_param_at_any_offset, from
-   the C11 shift theorem.  The list wrappers count every parameter (capacity independence: C13) and
-   are crash free (C04).
+   the C11 shift theorem.  The list level (UListSpec.v, C17_uri_parameter_list): ParseAllURIParams on
+   name=value;...;name=value <terminator>, at any offset, into a fresh list of any capacity: ok at the
+   terminator, every parameter counted (also those that do not fit), entry j = parameter j (extents,
+   known-parameter kind of its name), kind mask = union of the kinds.  Capacity independence: C13;
+   crash freedom: C04; resumption: C02.
    PARTIAL: quoted values with escapes, white space and folds around "=" and the separators, empty
    list items, the white-space-then-token terminator, and the converse direction (accepted => of
    that shape) are not proved: render/parse oracle + correspondence (chunked too). *)
-From Sipsp Require Import Harness Misc HdrSpec TokSpec.
+From Sipsp Require Import Harness Misc HdrSpec TokSpec UListSpec.
 Theorem C17_character_set : forall up c, tok_allowed up c = true <-> In c (allowed_set up).
 Proof. exact tok_allowed_spec. Qed.
 Theorem C17_bad_byte_in_name_rejected_there : forall f (rest : list byte) i s c,
@@ -55,9 +58,26 @@ Theorem C17_param_then_next_param_at_any_offset : forall flags junk n0 name v0 v
   parse_tokparam flags (junk ++ (n0 :: name) ++ 61 :: (v0 :: value) ++ tf_sep (tp_decode flags) :: c :: tail) k tokparam0
   = Done (k + (ln + 1 + lv + 1)) EMoreValues (mktokparam (mkpf k (ln + 1 + lv)) (mkpf k ln) (mkpf (k + (ln + 1)) lv) PInitNxtVal).
 Proof. exact tp_spec_more_at. Qed.
+(* ---- the list ------------------------------------------------------------------------------------------------------------------------- *)
+Theorem C17_uri_parameter_list : forall flags0 ps (junk : list byte) t r n, ps <> [] -> Forall (p_ok flags0) ps ->
+  is_term_c (N.lor flags0 (2 ^ bPOptParamSemiSep)) t = true ->
+  let i := nnat (length junk) in
+  let es := l_entries i ps in
+  exists L, parse_all_uri_params flags0 (junk ++ l_bytes flags0 ps ++ t :: r) i (uparams_init (repeat uriparam0 n))
+            = Done (i + nnat (length (l_bytes flags0 ps))) EOk L /\
+    ul_n L = nnat (length ps) /\ ul_vno L = nnat (length ps) /\
+    ul_types L = fold_left (fun a p => N.lor a (up_t p)) es 0 /\
+    (forall j, (j < length ps)%nat -> (j < n)%nat -> nth j (ul_params L) uriparam0 = nth j es uriparam0).
+Proof. exact uri_params_list_spec. Qed.
+(* satisfiable: "transport=udp;x=1?" with the '?' terminator *)
+Example C17_list_example :
+  let f := 2 ^ bPOptTokQmTerm in
+  Forall (p_ok f) [([116;114;97;110;115;112;111;114;116], [117;100;112]); ([120], [49])] /\ is_term_c (N.lor f (2 ^ bPOptParamSemiSep)) 63 = true.
+Proof. cbv zeta. split; [|reflexivity]. repeat constructor; try discriminate; try reflexivity. Qed.
 (* the hypotheses are satisfiable: "tag=x7;lr" with the default flags *)
 Example C17_example :
   parse_tokparam 0 [116;97;103;61;120;55;59;108;114] 0 tokparam0
   = Done 7 EMoreValues (mktokparam (mkpf 0 6) (mkpf 0 3) (mkpf 4 2) PInitNxtVal).
 Proof. vm_compute. reflexivity. Qed.
 Print Assumptions C17_param_then_next_param_at_any_offset.
+Print Assumptions C17_uri_parameter_list.
